@@ -1054,8 +1054,11 @@ def hostile_cases(ctx, res, instr, per_decoder, random_per_decoder):
     res.extra["worst_seconds_per_byte"] = worst["ratio"]
 
 
-def run_consumer(buf, mx, part, start, highwater):
-    """One real Consumer handed one FetchResponse whose messages are the real iterator over `part`."""
+def run_consumer(buf, mx, part, start, highwater, act=None):
+    """One real Consumer handed one FetchResponse whose messages are the real iterator over `part`.
+    `act` ("stop" | "commit" | "shutdown" | None): what the processor does with the Consumer's own API
+    while it is being handed the block (re-entrant call, the situation of the Lean theorem
+    C12_refetch_after_delivery_model)."""
     from unittest.mock import Mock
 
     from afkak.common import FetchResponse
@@ -1066,7 +1069,22 @@ def run_consumer(buf, mx, part, start, highwater):
 
     clock = Clock()
     delivered = []
-    cons = Consumer(Mock(reactor=clock), "t", 0, lambda cn, msgs: delivered.extend(m.offset for m in msgs), buffer_size=buf, max_buffer_size=mx)
+    reentry = []
+
+    def processor(cn, msgs):
+        delivered.extend(m.offset for m in msgs)
+        if act is None:
+            return None
+        try:
+            r = getattr(cons, act)()
+            if isinstance(r, Deferred):
+                r.addErrback(lambda f: reentry.append("errback " + f.type.__name__))
+            reentry.append("returned")
+        except Exception as e:  # noqa: BLE001 - what the re-entrant call raises is an observation
+            reentry.append("raised " + type(e).__name__)
+        return None
+
+    cons = Consumer(Mock(reactor=clock), "t", 0, processor, buffer_size=buf, max_buffer_size=mx)
     cons._start_d = Deferred()
     failed = []
     cons._start_d.addErrback(lambda f: failed.append(f.type.__name__))
@@ -1077,7 +1095,7 @@ def run_consumer(buf, mx, part, start, highwater):
         cons._handle_fetch_response([FetchResponse("t", 0, 0, highwater, C._decode_message_set_iter(part))])
     except Exception as e:  # noqa: BLE001 - an escaping exception is an observation, not a harness crash
         raised = type(e).__name__
-    return {"raised": raised, "delivered": delivered, "failed": failed, "new_b": "fail" if failed else str(cons.buffer_size), "after": cons._fetch_offset, "scheduled": len(clock.getDelayedCalls())}
+    return {"raised": raised, "delivered": delivered, "failed": failed, "new_b": "fail" if failed else str(cons.buffer_size), "after": cons._fetch_offset, "scheduled": len(clock.getDelayedCalls()), "reentry": reentry, "running": cons._start_d is not None}
 
 
 def grow_cases(ctx, res, n):
@@ -1110,10 +1128,12 @@ def grow_cases(ctx, res, n):
         bounds = [sum(12 + len(m) for _, m in entries[:j]) for j in range(nmsg + 1)]
         c = rng.choice([0, 1, 11, 12, 13, len(data), rng.randrange(len(data) + 1), rng.choice(bounds), max(0, rng.choice(bounds) - 1), min(len(data), rng.choice(bounds) + 1)])
         k = sum(1 for x in bounds[1:] if x <= c)
-        g_ = run_consumer(buf, mx, data[:c], start, off)
+        # what the processor does to the Consumer while it is handed the block (half of the cases: nothing)
+        act = rng.choice([None, None, None, "stop", "commit", "shutdown"])
+        g_ = run_consumer(buf, mx, data[:c], start, off, act)
         delivered, failed, new_b, after, scheduled = g_["delivered"], g_["failed"], g_["new_b"], g_["after"], g_["scheduled"]
         res.evaluations += 1
-        sc = {"kind": "grow", "buffer": buf, "max": mx, "entries": [[o, hx(m)] for o, m in entries], "c": c, "start": start}
+        sc = {"kind": "grow", "buffer": buf, "max": mx, "entries": [[o, hx(m)] for o, m in entries], "c": c, "start": start, "act": act}
         if g_["raised"]:
             res.monitor_failures.append({"what": "handling a fetch response whose message set is cut short raised %s" % g_["raised"], "scenario": sc, "tags": ["truncated-raises"]})
             continue
@@ -1132,8 +1152,17 @@ def grow_cases(ctx, res, n):
                 disagree(res, "buffer growth: model differs from Consumer._handle_fetch_response", sc, want, g)
 
         b.add("grow %d %s" % (buf, "N" if mx is None else mx), chk)
-        if not failed and scheduled != 1:
+        # a processor that stopped / shut down the consumer ends the run: no refetch is due then
+        if not failed and g_["running"] and scheduled != 1:
             res.monitor_failures.append({"what": "no refetch was scheduled after handling the fetch response", "scenario": dict(sc, scheduled=scheduled), "tags": ["no-refetch"]})
+        if not g_["running"] and not failed and not (k > 0 and act in ("stop", "shutdown")):
+            res.monitor_failures.append({"what": "the consumer is no longer running after handling a fetch response although nothing stopped it", "scenario": dict(sc, reentry=g_["reentry"]), "tags": ["stopped-by-itself"]})
+        if k > 0:
+            res.count("grow_reentry=%s" % (act or "none"))
+            for x in g_["reentry"]:
+                res.count("grow_reentry_outcome=%s:%s" % (act, x))
+            if act:
+                res.nontrivial(["grow-reentry", act, buf, mx, c, hx(data)])
         res.count("grow_case=%s" % ("too-small" if (k == 0 and c > 0) else ("empty" if c == 0 else "delivered")))
         res.count("grow_outcome=%s" % ("fail" if failed else ("grown" if new_b != str(buf) else "same")))
         if k == 0 and c > 0:
@@ -1584,10 +1613,10 @@ def replay(ctx, data):
             bounds = [sum(12 + len(m) for _, m in entries[:j]) for j in range(len(entries) + 1)]
             k = sum(1 for x in bounds[1:] if x <= sc["c"])
             offs = [o for o, _ in entries]
-            g_ = run_consumer(sc["buffer"], sc["max"], dat[: sc["c"]], sc["start"], offs[-1] + 1)
+            g_ = run_consumer(sc["buffer"], sc["max"], dat[: sc["c"]], sc["start"], offs[-1] + 1, sc.get("act"))
             line = "mon-refetch %s %d %d %d %d %s %d %s" % (",".join(map(str, offs)), k, sc["start"], g_["after"], sc["buffer"], "N" if sc["max"] is None else sc["max"], sc["c"], g_["new_b"])
             g = ctx.model("crc", [line, "grow %d %s" % (sc["buffer"], "N" if sc["max"] is None else sc["max"])])
-            print("impl : raised", g_["raised"], "delivered", g_["delivered"], "fetch offset", sc["start"], "->", g_["after"], "buffer", sc["buffer"], "->", g_["new_b"])
+            print("impl : raised", g_["raised"], "delivered", g_["delivered"], "fetch offset", sc["start"], "->", g_["after"], "buffer", sc["buffer"], "->", g_["new_b"], "processor re-entered", sc.get("act"), g_["reentry"])
             print("model: grow", g[1], "complete messages", k)
             print("monitor:", g[0])
             bad = g[0] != ["ok"] or g_["delivered"] != offs[:k] or bool(g_["raised"])
